@@ -163,8 +163,10 @@ OPS = ("bare", "stream", "merge1", "merge2", "merge_frozen")
 BETWEEN = ("", "clone", "freeze_thaw", "optimize")
 
 
-def build(hist, ops, between):
-    """feed the history through the given operation per entry ('merge2' takes two entries), with `between` applied after each"""
+def build(hist, ops, between, watch=None):
+    """feed the history through the given operation per entry ('merge2' takes two entries), with `between` applied after each;
+    watch, when given, collects (step, dict left behind by a clone(), what it rendered at that moment): a dict nobody touches any
+    more must keep rendering the same, whatever is done to its clone"""
     from pkgcore.ebuild.misc import ChunkedDataDict, chunked_data
     from pkgcore.ebuild.atom import atom
     from pkgcore.restrictions import packages
@@ -195,6 +197,8 @@ def build(hist, ops, between):
                 o.freeze()
             d.merge(o)
         if btw == "clone":
+            if watch is not None:
+                watch.append((step_no, d, [sorted(d.render_pkg(p_, pre_)) for p_ in _pkgs() for pre_ in ((), ("x", "X_a"))]))
             d = d.clone()
         elif btw == "freeze_thaw":
             d.freeze()
@@ -211,11 +215,23 @@ def _pkgs():
 
 
 def _check(hist, ops, between, pkgs, fails, final=""):
-    d = build(hist, ops, between)
-    if final == "freeze":
-        d.freeze()
-    elif final == "optimize":
-        d.optimize()
+    watch = []
+    model0 = {"history": [list(map(str, h)) for h in hist], "operations": list(ops), "between": list(between), "final": final}
+    try:
+        d = build(hist, ops, between, watch)
+        if final == "freeze":
+            d.freeze()
+        elif final == "optimize":
+            d.optimize()
+    except Exception as e:
+        if len(fails) < 4:
+            fails.append({"model": model0, "detail": f"history {hist} fed through {ops} (after each: {between}; finally {final or 'nothing'}) raised {type(e).__name__}: {e}"})
+        return 1
+    for step, left, before in watch:
+        now = [sorted(left.render_pkg(p_, pre_)) for p_ in _pkgs() for pre_ in ((), ("x", "X_a"))]
+        if now != before and len(fails) < 4:
+            fails.append({"model": dict(model0, original_left_behind_at_step=step),
+                          "detail": f"history {hist} fed through {ops} (after each: {between}): the dict that was cloned at step {step} and not touched since renders {now} now, it rendered {before} when it was cloned"})
     n = 0
     for pkg in pkgs:
         for pre in ((), ("x", "X_a")):
